@@ -28,6 +28,7 @@ fn profile_for(id: &str, tier: Tier, ctx: &Ctx) -> SProfile {
             p.p_parser_error = 15;
             p.p_empty_brackets = 20;
             p.log_fragments = true;
+            p.p_twin_scenario = 15;
         }
         "C12" => {
             p.p_retry = 55;
@@ -414,6 +415,15 @@ fn run_c01(input: &Input, ctx: &Ctx, tier: Tier) -> CaseOut {
         let fos = tb.chance(1, 2);
         let lt = tb.chance(1, 3);
         violations.extend(verdict::check_run_and_exit(&stream, &allow, fos, lt));
+    }
+    if input.b.first().is_some_and(|x| x % 8 == 0) {
+        // "a failed step" also when it fails by *returning* Err from a function defined through
+        // the attribute macros (every spelling of the return type in the C19 zoo): the real
+        // runner's events over such steps, judged by the summarizing writer
+        let mut tz = crate::tape::Tape::new(input.b.iter().rev().copied().collect());
+        let (v, _) = crate::func::c19::check_macro_step_errors(&mut tz, "C01/macro-step-error");
+        violations.extend(v.into_iter().filter(|v| v.sig.ends_with("/verdict")));
+        labels.push("macro_steps_returning_err");
     }
     crate::lab::driver::install_probe_hook();
     let x = &out.expected;
